@@ -394,8 +394,8 @@ theorem run_withSliceAll (f : Bytes → Option α) (d : Bytes) (len : Nat) :
       simp [sliceN, runG0, stepG0, hv, hlt]
     have hk : runG0 (skipN len) (St d (some len)) = .ok ((), St (d.drop len) (some 0)) := by
       simp [skipN, runG0, stepG0, ha, G0.adv, hv, hlt]
-    trace_state
-    simp only [hs]
+    rw [runG0_bind, hs]
+    simp only []
     cases f (d.take len) with
     | none => rfl
     | some a => simp only [runG0_bind, hk, runG0_pure]
@@ -472,5 +472,227 @@ theorem take_skip_alike (c rest : Bytes) :
     (∃ r, runG0 Oid.skipPrimitive (St (c ++ rest) (some c.length)) = .ok r) := by
   rw [fromPrimitive_run, skipPrimitive_run]
   cases Oid.checkContent c <;> simp
+
+/-! ## 3. the component iterator -/
+
+theorem subIdsAux_nil (cur : Bytes) : subIdsAux [] cur = if cur.isEmpty then some [] else none := by
+  cases cur <;> rfl
+
+/-- the first sub-identifier of a splittable content: where `Iter::next` finds its end, and what
+    the reference splitter does with it -/
+theorem split_first (slice : Bytes) : ∀ (cur : Bytes) (k : Nat) (l : List Bytes), slice ≠ [] →
+    subIdsAux slice cur = some l →
+    ∃ i l', Oid.findEnd slice k = some (k + i) ∧ i < slice.length ∧
+      l = (cur ++ slice.take (i + 1)) :: l' ∧ subIdsAux (slice.drop (i + 1)) [] = some l' := by
+  induction slice with
+  | nil => intro cur k l h; exact absurd rfl h
+  | cons b rest ih =>
+    intro cur k l _ h
+    simp only [subIdsAux] at h
+    by_cases hb : b.toNat < 128
+    · simp only [hb, if_true] at h
+      cases hr : subIdsAux rest [] with
+      | none => simp [hr] at h
+      | some l' =>
+        simp [hr] at h
+        refine ⟨0, l', ?_, by simp, ?_, ?_⟩
+        · simp [Oid.findEnd, byte_and80_eq0, hb]
+        · simp [← h]
+        · simpa using hr
+    · simp only [hb, if_false] at h
+      have hne : rest ≠ [] := by
+        intro e; subst e; rw [subIdsAux_nil] at h; simp at h
+      obtain ⟨i, l', h1, h2, h3, h4⟩ := ih (cur ++ [b]) (k + 1) l hne h
+      refine ⟨i + 1, l', ?_, by simp; omega, ?_, ?_⟩
+      · simp only [Oid.findEnd, byte_and80_eq0, hb, decide_false, Bool.false_eq_true, if_false]
+        rw [h1]; congr 1; omega
+      · rw [h3]; simp
+      · simpa using h4
+
+theorem iterNext_some (slice : Bytes) (pos : Oid.Position) (i : Nat) (hne : slice ≠ [])
+    (h : Oid.findEnd slice 0 = some i) :
+    Oid.iterNext slice pos = .ok (some ((pos, slice.take (i + 1)),
+      (if pos != .first then slice.drop (i + 1) else slice,
+       match pos with | .first => Oid.Position.second | _ => Oid.Position.other))) := by
+  unfold Oid.iterNext
+  have : slice.isEmpty = false := by cases slice with
+    | nil => exact absurd rfl hne
+    | cons _ _ => rfl
+  simp only [this, Bool.false_eq_true, if_false, h]
+  cases pos <;> rfl
+
+theorem componentsAux_step (fuel : Nat) (slice : Bytes) (pos : Oid.Position) (i : Nat) (hne : slice ≠ [])
+    (h : Oid.findEnd slice 0 = some i) :
+    Oid.componentsAux (fuel + 1) slice pos =
+      (Oid.componentsAux fuel (if pos != .first then slice.drop (i + 1) else slice)
+        (match pos with | .first => Oid.Position.second | _ => Oid.Position.other)).map
+        ((pos, slice.take (i + 1)) :: ·) := by
+  simp only [Oid.componentsAux, iterNext_some slice pos i hne h]
+  rfl
+
+theorem componentsAux_nil (fuel : Nat) (pos : Oid.Position) :
+    Oid.componentsAux (fuel + 1) [] pos = .ok [] := rfl
+
+theorem componentsAux_other : ∀ (fuel : Nat) (slice : Bytes) (l : List Bytes), slice.length < fuel →
+    subIdsAux slice [] = some l →
+    Oid.componentsAux fuel slice .other = .ok (l.map fun s => (Oid.Position.other, s)) := by
+  intro fuel
+  induction fuel with
+  | zero => intro slice l h; omega
+  | succ fuel ih =>
+    intro slice l hf hs
+    by_cases hne : slice = []
+    · subst hne
+      rw [subIdsAux_nil] at hs; simp at hs; subst hs; rfl
+    · obtain ⟨i, l', h1, h2, h3, h4⟩ := split_first slice [] 0 l hne hs
+      simp only [Nat.zero_add] at h1
+      rw [componentsAux_step fuel slice .other i hne h1]
+      have hlen : (slice.drop (i + 1)).length < fuel := by simp; omega
+      have := ih (slice.drop (i + 1)) l' hlen h4
+      simp only [show (Oid.Position.other != Oid.Position.first) = true from rfl, if_true]
+      rw [this, h3]
+      rfl
+
+/-- what the iterator yields for the sub-identifiers `l`: the first one twice (as first and second
+    component), then the others -/
+def compsOf : List Bytes → List (Oid.Position × Bytes)
+  | [] => []
+  | s0 :: rest => (.first, s0) :: (.second, s0) :: rest.map fun s => (Oid.Position.other, s)
+
+/-- **C20, iterator.**  On every accepted content the component iterator terminates without a
+    panic (and within the model's fuel) and yields exactly the sub-identifiers of the reference
+    splitter, the first one twice. -/
+theorem components_eq (c : Bytes) (l : List Bytes) (h : subIds c = some l) :
+    Oid.components c = .ok (compsOf l) := by
+  unfold subIds at h
+  by_cases hne : c = []
+  · subst hne; simp at h
+  · have he : c.isEmpty = false := by cases c with
+      | nil => exact absurd rfl hne
+      | cons _ _ => rfl
+    simp only [he, Bool.false_eq_true, if_false] at h
+    obtain ⟨i, l', h1, h2, h3, h4⟩ := split_first c [] 0 l hne h
+    simp only [Nat.zero_add] at h1
+    unfold Oid.components
+    rw [componentsAux_step (c.length + 1) c .first i hne h1]
+    simp only [show (Oid.Position.first != Oid.Position.first) = false from rfl, Bool.false_eq_true, if_false]
+    rw [componentsAux_step c.length c .second i hne h1]
+    simp only [show (Oid.Position.second != Oid.Position.first) = true from rfl, if_true]
+    have hlen : (c.drop (i + 1)).length < c.length := by simp; omega
+    rw [componentsAux_other c.length (c.drop (i + 1)) l' hlen h4, h3]
+    rfl
+
+theorem components_accepted (c : Bytes) (h : Oid.checkContent c = true) :
+    ∃ s0 rest, subIds c = some (s0 :: rest) ∧
+      Oid.components c = .ok ((.first, s0) :: (.second, s0) :: rest.map fun s => (Oid.Position.other, s)) := by
+  rw [checkContent_eq_subIds] at h
+  cases hs : subIds c with
+  | none => simp [hs] at h
+  | some l =>
+    have hc := components_eq c l hs
+    cases l with
+    | nil =>
+      exfalso
+      unfold subIds at hs
+      cases c with
+      | nil => simp at hs
+      | cons b t =>
+        simp only [List.isEmpty_cons, Bool.false_eq_true, if_false] at hs
+        obtain ⟨i, l', _, _, h3, _⟩ := split_first (b :: t) [] 0 [] (by simp) hs
+        cases h3
+    | cons s0 rest => exact ⟨s0, rest, rfl, hc⟩
+
+/-! ### `Component::to_u32` -/
+
+/-- the loop body of `to_u32` (u32 arithmetic) -/
+def stepT (res : Nat) (ch : UInt8) : Nat := ((res <<< 7) % 2 ^ 32) ||| (ch &&& 0x7F).toNat
+/-- the loop body of the reference value -/
+def stepV (acc : Nat) (b : UInt8) : Nat := acc * 128 + b.toNat % 128
+
+theorem subIdValue_def (s : Bytes) : subIdValue s = s.foldl stepV 0 := rfl
+
+theorem stepT_eq (res : Nat) (ch : UInt8) (h : res * 128 < 2 ^ 32) : stepT res ch = stepV res ch := by
+  unfold stepT stepV
+  have e : res <<< 7 = res * 128 := by rw [Nat.shiftLeft_eq]
+  have hm : (res <<< 7) % 2 ^ 32 = res <<< 7 := Nat.mod_eq_of_lt (by rw [e]; exact h)
+  rw [hm, byte_and7f, shl_or res (ch.toNat % 128) 7 (Nat.mod_lt _ (by decide))]
+
+theorem foldl_stepV_mono (s : Bytes) : ∀ a, a ≤ s.foldl stepV a := by
+  induction s with
+  | nil => intro a; exact Nat.le_refl _
+  | cons b s ih =>
+    intro a
+    have := ih (stepV a b)
+    simp only [List.foldl]
+    unfold stepV at this ⊢
+    omega
+
+/-- as long as the value fits in 32 bits the wrapping loop computes it exactly -/
+theorem foldl_stepT_eq (s : Bytes) : ∀ a, s.foldl stepV a < 2 ^ 32 → s.foldl stepT a = s.foldl stepV a := by
+  induction s with
+  | nil => intro a _; rfl
+  | cons b s ih =>
+    intro a h
+    simp only [List.foldl] at h ⊢
+    have hm := foldl_stepV_mono s (stepV a b)
+    have : a * 128 < 2 ^ 32 := by unfold stepV at hm; omega
+    rw [stepT_eq a b this]
+    exact ih _ h
+
+/-- the arc(s) a component stands for, from the value of its sub-identifier
+    (X.690 8.19.4: the first sub-identifier is `40 * arc₁ + arc₂`) -/
+def arcOf (pos : Oid.Position) (v : Nat) : Nat :=
+  match pos with
+  | .first => if v < 40 then 0 else if v < 80 then 1 else 2
+  | .second => if v < 80 then v % 40 else v - 80
+  | .other => v
+
+theorem byte_and70_ne0 (b : UInt8) : ((b &&& 0x70) != 0) = decide (16 ≤ b.toNat % 128) := by
+  revert b; apply UInt8.forall_bv; decide
+
+/-- `to_u32` reports "too large" exactly for more than five octets, or five octets with one of
+    the bits 5–7 of the first set -/
+def tooLarge (s0 : UInt8) (t : Bytes) : Prop := t.length + 1 > 5 ∨ (t.length + 1 = 5 ∧ 16 ≤ s0.toNat % 128)
+instance (s0 : UInt8) (t : Bytes) : Decidable (tooLarge s0 t) := by unfold tooLarge; exact inferInstance
+
+theorem toU32_unfold (pos : Oid.Position) (s0 : UInt8) (t : Bytes) :
+    Oid.toU32 pos (s0 :: t) =
+      if tooLarge s0 t then none else some (arcOf pos ((s0 :: t).foldl stepT 0)) := by
+  unfold Oid.toU32 tooLarge
+  simp only [List.length_cons, byte_and70_ne0]
+  by_cases h : t.length + 1 > 5 ∨ (t.length + 1 = 5 ∧ 16 ≤ s0.toNat % 128)
+  · have : (decide (t.length + 1 > 5) || (t.length + 1 == 5 && decide (16 ≤ s0.toNat % 128))) = true := by
+      simpa using h
+    simp only [this, if_true, h]
+  · have : (decide (t.length + 1 > 5) || (t.length + 1 == 5 && decide (16 ≤ s0.toNat % 128))) = false := by
+      simpa using h
+    simp only [this, Bool.false_eq_true, if_false, h]
+    cases pos <;> rfl
+
+theorem value_fits (s0 : UInt8) (t : Bytes) (h : ¬ tooLarge s0 t) : subIdValue (s0 :: t) < 2 ^ 32 := by
+  unfold tooLarge at h
+  rw [subIdValue_def]
+  rcases t with _ | ⟨b, _ | ⟨c, _ | ⟨d, _ | ⟨e, _ | ⟨f, t⟩⟩⟩⟩⟩
+  · simp only [List.foldl, stepV]; omega
+  · simp only [List.foldl, stepV]; omega
+  · simp only [List.foldl, stepV]; omega
+  · simp only [List.foldl, stepV]; omega
+  · simp only [List.foldl, stepV]
+    simp only [List.length_cons, List.length_nil] at h
+    omega
+  · simp only [List.length_cons] at h; omega
+
+/-- **`to_u32`, every non-empty component** (minimal or not): either "too large", or exactly the
+    arc determined by the sub-identifier's value — never a wrong number -/
+theorem toU32_eq (pos : Oid.Position) (s0 : UInt8) (t : Bytes) :
+    Oid.toU32 pos (s0 :: t) =
+      if tooLarge s0 t then none else some (arcOf pos (subIdValue (s0 :: t))) := by
+  rw [toU32_unfold]
+  by_cases h : tooLarge s0 t
+  · simp only [h, if_true]
+  · simp only [h, if_false]
+    have := value_fits s0 t h
+    rw [subIdValue_def] at this ⊢
+    rw [foldl_stepT_eq _ 0 this]
 
 end Bcder.Props.C20
